@@ -72,16 +72,16 @@ const (
 )
 
 type contRun struct {
-	c      *engine.Ctx
-	cc     contCase
-	s      *world.Server
-	lw     *world.LW
-	vtotal time.Duration
-	roots  map[string]*vRoot
-	sets   []setEv
-	enrs   []enrEv
+	c         *engine.Ctx
+	cc        contCase
+	s         *world.Server
+	lw        *world.LW
+	vtotal    time.Duration
+	roots     map[string]*vRoot
+	sets      []setEv
+	enrs      []enrEv
 	L, nb, na time.Duration
-	failed bool
+	failed    bool
 }
 
 func (h *contRun) vnow() time.Time { return time.Now().Add(h.vtotal) }
